@@ -34,6 +34,38 @@ def _derives_from_content(node: ast.AST) -> bool:
     return False
 
 
+def _local_defs(fn: ast.AST) -> dict:
+    """name -> list of value expressions assigned to that local in fn (simple Name targets only)."""
+    out: dict = {}
+    for n in walk_no_nested(fn):
+        if isinstance(n, ast.Assign):
+            for t in n.targets:
+                if isinstance(t, ast.Name):
+                    out.setdefault(t.id, []).append(n.value)
+        elif isinstance(n, ast.AnnAssign) and n.value is not None and isinstance(n.target, ast.Name):
+            out.setdefault(n.target.id, []).append(n.value)
+    return out
+
+
+def _escaped_or_literal(node: ast.AST, defs: dict, depth: int = 0) -> bool:
+    """Is the expression, on every alternative, either escape_text(<anything>) or a string literal?"""
+    if depth > 6:
+        return False
+    if isinstance(node, ast.Constant) and isinstance(node.value, str):
+        return True
+    if isinstance(node, ast.IfExp):
+        return _escaped_or_literal(node.body, defs, depth + 1) and _escaped_or_literal(node.orelse, defs, depth + 1)
+    if isinstance(node, ast.Call):
+        return conversion_of(node)[0] == 'escape_text'
+    if isinstance(node, ast.Name) and node.id in defs:
+        return all(_escaped_or_literal(v, defs, depth + 1) for v in defs[node.id])
+    return False
+
+
+STRUCTURAL_TESTS = ('isinstance(self._value, list)', 'self._real_name is None', 'self._real_name is not None',
+                    'not isinstance(self._value, list)', 'isinstance(self._value, str)', 'not isinstance(self._value, str)')
+
+
 def run(ctx: Any, prog: Program) -> None:
     kv = prog.module('keyvalues')
     ctx.not_decided += ['value-level equality parse(serialise(t)) == t for all strings (the character-level inverse law is C02)',
@@ -43,6 +75,7 @@ def run(ctx: Any, prog: Program) -> None:
     ctx.rule('C01.R2', 'indentation options occur only outside quotes and are never branched on; content only inside quotes', floor=8)
     ctx.rule('C01.R3', 'serialise/_serialise/export/__str__ do not mutate the tree', floor=4)
     ctx.rule('C01.R4', 'Keyvalues.parse passes allow_escapes through to its Tokenizer, default True', floor=2)
+    ctx.rule('C01.R6', 'the writers branch on tree content only through the structural tests `isinstance(self._value, list)` and `self._real_name is None`', floor=4)
     ctx.rule('C01.R5', 'children are written in list order exactly once by self-recursion; parse only appends (flag replacement needs a PROP_FLAG token the writer cannot emit)', floor=6)
 
     writers = {'Keyvalues._serialise': kv.func('Keyvalues._serialise'), 'Keyvalues.export': kv.func('Keyvalues.export')}
@@ -58,6 +91,26 @@ def run(ctx: Any, prog: Program) -> None:
                     if set(names_in(n.value)) & derived and not _derives_from_content(n.value) and n.targets[0].id not in derived:
                         derived.add(n.targets[0].id)
                         changed = True
+        defs = _local_defs(fn)
+        content_locals: Set[str] = set()
+        changed = True
+        while changed:
+            changed = False
+            for nm, vals in defs.items():
+                if nm not in content_locals and any(_derives_from_content(v) or (set(names_in(v)) & content_locals) for v in vals):
+                    content_locals.add(nm)
+                    changed = True
+        # R6: content-dependent control flow
+        for n in walk_no_nested(fn):
+            if isinstance(n, (ast.If, ast.IfExp, ast.While)) or (isinstance(n, ast.Assert)):
+                test = n.test
+                if _derives_from_content(test) or (set(names_in(test)) & content_locals):
+                    if isinstance(n, ast.Assert):
+                        continue
+                    src = ast.unparse(test)
+                    ctx.check('C01.R6', src in STRUCTURAL_TESTS, kv, n if isinstance(n, ast.stmt) else kv.parents.get(n, n),
+                              f'the writer branches on tree content through `{src}`: the emitted token stream then depends on the value of a name/value, '
+                              'not only on the node kind (block/leaf/root)', text='content test ' + src)
         emits = emits_in(fn)
         if not emits:
             raise AnalysisError(f'{qual}: no write()/yield emissions found')
@@ -69,12 +122,11 @@ def run(ctx: Any, prog: Program) -> None:
             for s in em.slots:
                 if isinstance(s.node, (ast.GeneratorExp, ast.ListComp)) or (isinstance(em.node, ast.Yield) and not any(p.kind == 'lit' for p in em.pieces)):
                     continue  # `yield from`-style pass through of already lexed child lines
-                content = _derives_from_content(s.node)
+                content = _derives_from_content(s.node) or bool(set(names_in(s.node)) & content_locals)
                 uses_indent = bool(set(names_in(s.node)) & derived)
                 if s.quoted:
                     if content:
-                        conv, inner = conversion_of(s.node)
-                        ctx.check('C01.R1', conv == 'escape_text', kv, s.emit,
+                        ctx.check('C01.R1', _escaped_or_literal(s.node, defs), kv, s.emit,
                                   f'`{ast.unparse(s.node)}` is written inside quotes in {s.position} position without escape_text(); '
                                   'a quote or backslash in it ends the token early / is decoded as an escape by the reader',
                                   text=f'{s.position} slot {ast.unparse(s.node)}')
@@ -177,6 +229,8 @@ def _in_orelse(ifnode: ast.If, node: ast.AST, mod: Any) -> bool:
 
 
 MUTANTS = [
+    {'id': 'root_test_by_value', 'file': 'keyvalues.py', 'find': "            if self._real_name is None:\n                # If the name is None, we just output the children\n                # without a \"Name\" { } surround. These Keyvalue objects represent the root.\n                for child in self._value:", 'replace': "            if not self._real_name:\n                # If the name is None, we just output the children\n                # without a \"Name\" { } surround. These Keyvalue objects represent the root.\n                for child in self._value:", 'expect': 'C01.R6'},
+    {'id': 'name_precomputed_ok', 'file': 'keyvalues.py', 'find': "                file.write(f'{cur_indent}\"{escape_text(self._real_name)}\"\\n')", 'replace': "                name = escape_text(self._real_name)\n                file.write(f'{cur_indent}\"{name}\"\\n')", 'expect': None, 'note': 'negative control: escaped name held in a local'},
     {'id': 'block_name_unescaped', 'file': 'keyvalues.py', 'find': 'file.write(f\'{cur_indent}"{escape_text(self._real_name)}"\\n\')', 'replace': 'file.write(f\'{cur_indent}"{self._real_name}"\\n\')', 'expect': 'C01.R1'},
     {'id': 'leaf_value_unescaped', 'file': 'keyvalues.py', 'find': '"{escape_text(self._real_name)}" "{escape_text(self._value)}"\\n\')\n\n    serialize', 'replace': '"{escape_text(self._real_name)}" "{self._value}"\\n\')\n\n    serialize', 'expect': 'C01.R1'},
     {'id': 'indent_in_quotes', 'file': 'keyvalues.py', 'find': "file.write(f'{cur_indent}\"{", 'replace': "file.write(f'\"{cur_indent}{", 'expect': 'C01.R2'},
